@@ -110,6 +110,15 @@ def run(tier):
     if len(loops) != 1:
         return rep
     head, body = loops[0]
+    # the whole input is handed to the decoder as one chunk (the slice `input[total..]` reaches to the end): every call must say so
+    # (`last` = true).  With `last` = false the decoder buffers a truncated trailing sequence and answers InputEmpty: Strict returns Ok,
+    # Replace writes no U+FFFD, the trap is not called - the malformed tail decodes "to the same documents" as the well-formed text.
+    dec = [(b_, t_) for b_, t_, ck_, fr_ in dl.calls() if ck_ and ck_.startswith("encoding_rs::Decoder::decode_to_")]
+    for b_, t_ in dec:
+        lastv = cfg.expr_operand(dl, t_["args"][-1])
+        rep.check(lastv == ("const", True), "final-chunk-flag", "decode_loop", "the decoder is given the rest of the input with `last` not the constant true (%s): "
+                  "a truncated sequence at the very end of the input is buffered instead of reported" % (cfg.expr_str(lastv),), site=dl.span)
+    rep.floor("decoder calls in decode_loop", len(dec), 1)
     # the match on DecoderResult
     sw = [(bb, p, adt) for bb, p, adt in tables.discr_switches(dl) if adt == "encoding_rs::DecoderResult" and bb in body]
     if len(sw) != 1:
